@@ -54,7 +54,13 @@ class Dialect:
                 )
         new_dialect = cast(Type[Dialect], new_class("Dialect", (Dialect,)))
         new_dialect.serialization_strategy = serialization_strategy
-        for key in ("omit_none", "omit_default", "no_copy_collections"):
+        for key in (
+            "serialize_by_alias",
+            "namedtuple_as_dict",
+            "omit_none",
+            "omit_default",
+            "no_copy_collections",
+        ):
             if (others_value := getattr(other, key)) is not Sentinel.MISSING:
                 setattr(new_dialect, key, others_value)
             else:
